@@ -195,6 +195,9 @@ class Connection:
     transport: PhysicalTransport
     link_type: int
     classic_allow_role_switch: bool = False
+    # Remote feature reads accepted as pending and not concluded yet:
+    # 'le', 'classic' or ('classic-ext', page)
+    pending_feature_reads: list = dataclasses.field(default_factory=list)
 
     def __post_init__(self) -> None:
         self.assembler = hci.HCI_AclDataPacketAssembler(self.on_acl_pdu)
@@ -640,6 +643,8 @@ class Controller:
                     )
                 )
             case ll.FeatureRsp(feature_set):
+                if 'le' in connection.pending_feature_reads:
+                    connection.pending_feature_reads.remove('le')
                 self.send_hci_packet(
                     hci.HCI_LE_Read_Remote_Features_Complete_Event(
                         status=hci.HCI_ErrorCode.SUCCESS,
@@ -762,6 +767,17 @@ class Controller:
             self.peripheral_cis_links.pop(cis_link.handle, None)
             cis_link.acl_connection = None
             cis_link.established = False
+
+        # A feature read that was waiting for the peer's answer has failed
+        if 'le' in connection.pending_feature_reads:
+            connection.pending_feature_reads.remove('le')
+            self.send_hci_packet(
+                hci.HCI_LE_Read_Remote_Features_Complete_Event(
+                    status=reason,
+                    connection_handle=connection.handle,
+                    le_features=bytes(8),
+                )
+            )
 
         # Send a disconnection complete event
         self.send_hci_packet(
@@ -1117,6 +1133,8 @@ class Controller:
                 )
             case lmp.LmpFeaturesRes(features):
                 if connection := self.classic_connections.get(sender_address):
+                    if 'classic' in connection.pending_feature_reads:
+                        connection.pending_feature_reads.remove('classic')
                     self.send_hci_packet(
                         hci.HCI_Read_Remote_Supported_Features_Complete_Event(
                             status=hci.HCI_ErrorCode.SUCCESS,
@@ -1146,6 +1164,10 @@ class Controller:
                 )
             case lmp.LmpFeaturesResExt(features_page, max_features_page, features):
                 if connection := self.classic_connections.get(sender_address):
+                    if ('classic-ext', features_page) in connection.pending_feature_reads:
+                        connection.pending_feature_reads.remove(
+                            ('classic-ext', features_page)
+                        )
                     self.send_hci_packet(
                         hci.HCI_Read_Remote_Extended_Features_Complete_Event(
                             status=hci.HCI_ErrorCode.SUCCESS,
@@ -1254,6 +1276,27 @@ class Controller:
 
         # Send a disconnection complete event
         if connection := self.classic_connections.pop(peer_address, None):
+            # Feature reads that were waiting for the peer's answer have failed
+            for pending in connection.pending_feature_reads:
+                if pending == 'classic':
+                    self.send_hci_packet(
+                        hci.HCI_Read_Remote_Supported_Features_Complete_Event(
+                            status=reason,
+                            connection_handle=connection.handle,
+                            lmp_features=bytes(8),
+                        )
+                    )
+                elif pending != 'le':
+                    self.send_hci_packet(
+                        hci.HCI_Read_Remote_Extended_Features_Complete_Event(
+                            status=reason,
+                            connection_handle=connection.handle,
+                            page_number=pending[1],
+                            maximum_page_number=0,
+                            extended_lmp_features=bytes(8),
+                        )
+                    )
+            connection.pending_feature_reads.clear()
             self.send_hci_packet(
                 hci.HCI_Disconnection_Complete_Event(
                     status=hci.HCI_ErrorCode.SUCCESS,
@@ -1614,6 +1657,7 @@ class Controller:
             return None
 
         self._send_hci_command_status(hci.HCI_COMMAND_STATUS_PENDING, command.op_code)
+        connection.pending_feature_reads.append('classic')
         self.send_lmp_packet(
             connection.peer_address,
             lmp.LmpFeaturesReq(self.lmp_features_bytes[:8]),
@@ -1635,6 +1679,7 @@ class Controller:
             return None
 
         self._send_hci_command_status(hci.HCI_COMMAND_STATUS_PENDING, command.op_code)
+        connection.pending_feature_reads.append(('classic-ext', command.page_number))
         self.send_lmp_packet(
             connection.peer_address,
             lmp.LmpFeaturesReqExt(
@@ -2450,6 +2495,7 @@ class Controller:
 
         # First, say that the command is pending
         self._send_hci_command_status(hci.HCI_COMMAND_STATUS_PENDING, command.op_code)
+        connection.pending_feature_reads.append('le')
 
         if connection.role == hci.Role.CENTRAL:
             connection.send_ll_control_pdu(
